@@ -336,3 +336,75 @@ pub fn window_key(f: &Finding, p: &Program, _o: &Outcome) -> Option<String> {
         _ => None,
     }
 }
+
+pub fn c06_key(f: &Finding, p: &Program, _o: &Outcome) -> Option<String> {
+    match f.kind {
+        Kind::Panic => {
+            if f.msg.contains("lowering.rs") && f.msg.contains("cannot find cid by id") && !p.lets.is_empty() {
+                return Some("panic-inferred-column-through-named-relation".into());
+            }
+            None
+        }
+        Kind::CompileReject => {
+            // a function parameter with the name of a column in scope
+            let clash = p.funcs.iter().any(|f| f.params.iter().any(|n| n == "x"));
+            if clash && f.msg.contains("Ambiguous name") {
+                return Some("function-parameter-named-like-column-is-ambiguous".into());
+            }
+            // an alias defined in a tuple and a same-named column of a named relation used in that tuple
+            if f.msg.contains("Ambiguous name") && !p.lets.is_empty() {
+                let same_tuple = main_frames(p).iter().any(|(fr, s)| {
+                    let (aliases, used): (Vec<String>, Vec<usize>) = match s {
+                        Step::Aggregate(a) => (a.iter().map(|x| x.0.clone()).collect(), a.iter().filter_map(|x| x.2).collect()),
+                        Step::Derive(it) | Step::Select(it) => {
+                            let mut u = vec![];
+                            it.iter().for_each(|i| i.e.cols(&mut u));
+                            (it.iter().filter_map(|i| i.alias.clone()).collect(), u)
+                        }
+                        _ => (vec![], vec![]),
+                    };
+                    used.iter().any(|&c| fr.named(c).map(|n| aliases.iter().any(|a| a == n)).unwrap_or(false))
+                });
+                if same_tuple {
+                    return Some("alias-and-same-named-column-of-named-relation-in-one-tuple-ambiguous".into());
+                }
+            }
+            None
+        }
+        Kind::Arity => {
+            let got = parse_names(&f.got);
+            let exp: Vec<Option<String>> = serde_json::from_str(&f.expected).unwrap_or_default();
+            for (_, lp) in &p.lets {
+                let lf = pipeline_frame(lp, p);
+                let has_join = lp.steps.iter().any(is_join);
+                // (L1) a named relation that still has the wildcards of two joined inputs
+                if has_join && lf.open.len() >= 1 && lf.inputs.len() >= 2 && got.len() > exp.len() {
+                    return Some("named-relation-over-open-join-repeats-columns".into());
+                }
+                // (L2) a named relation whose frame holds the same bare column name twice
+                let names: Vec<&String> = lf.cols.iter().filter_map(|c| c.name.as_ref()).collect();
+                let dup = names.iter().enumerate().any(|(i, n)| names[..i].contains(n));
+                if dup && got.len() < exp.len() {
+                    return Some("named-relation-with-duplicate-column-names-loses-column".into());
+                }
+            }
+            None
+        }
+        Kind::Order | Kind::Rows => {
+            let keys = sort_key_names(p);
+            if aliases_after_sort(p).iter().any(|a| keys.contains(a)) {
+                return Some("sort-key-name-captured-by-later-alias".into());
+            }
+            // sorted named relation in which the sort key's bare name occurs twice
+            for (_, lp) in &p.lets {
+                let lf = pipeline_frame(lp, p);
+                let names: Vec<&String> = lf.cols.iter().filter_map(|c| c.name.as_ref()).collect();
+                if lp.steps.iter().any(is_sort) && keys.iter().any(|k| names.iter().filter(|n| **n == k).count() >= 2) {
+                    return Some("sort-key-of-named-relation-resolved-to-same-named-column".into());
+                }
+            }
+            None
+        }
+        _ => None,
+    }
+}
